@@ -203,6 +203,12 @@ func GenSpec(t *rapid.T) *Spec {
 		}
 		j.SampleLimit = rapid.SampledFrom([]int{0, 0, 1000, 50000}).Draw(t, l+"-sampleLimit")
 		j.LabelLimit = rapid.SampledFrom([]int{0, 0, 30}).Draw(t, l+"-labelLimit")
+		if rapid.IntRange(0, 3).Draw(t, l+"-moreLimits") == 0 {
+			j.TargetLimit = rapid.SampledFrom([]int{0, 500}).Draw(t, l+"-targetLimit")
+			j.NameLenLimit = rapid.SampledFrom([]int{0, 200}).Draw(t, l+"-nameLen")
+			j.ValueLenLimit = rapid.SampledFrom([]int{0, 2048}).Draw(t, l+"-valueLen")
+			j.BodySizeLimit = rapid.SampledFrom([]string{"", "10MB", "512KB"}).Draw(t, l+"-bodySize")
+		}
 		j.Auth = genAuth(t, g, l, true)
 		if rapid.IntRange(0, 2).Draw(t, l+"-tlsOn") == 0 {
 			j.TLS = TLS{On: true, Insecure: rapid.Bool().Draw(t, l+"-insecure"), ServerName: rapid.SampledFrom([]string{"", "kube.internal"}).Draw(t, l+"-sni")}
